@@ -35,16 +35,22 @@ def run(tier, replay):
     d = json.loads(lib.read_lines(defacp)[0])
     # (2) exhaustive enumeration of role subsets over the extracted data
     mc = lib.tlc("KAccessDefMC", cfg="KAccessDefMC", pid=PID, workers=4, timeout=1800, env={"DEFACP": defacp})
-    lib.tlc_must_pass(mc, "KAccessDefMC: no sensitive grant on high-privilege targets for users outside HP; monotonicity; known filter constructs")
-    arms = {t[1] for t in mc["tuples"] if t[0] == "ARM"}
-    if arms != ARMS:
-        lib.tool_error(f"vacuity guard: arms not exercised by the exhaustive run: {sorted(ARMS - arms)}")
+    # A violation of Inv on the extracted data is a counterexample of the MODEL: a hypothesis about the tree under test.
+    # It is never an alarm by itself; the replay below lives the role sets on the real server and L1 judges the observations.
+    model_cex = mc["violated"] == ["Inv"] and not mc["error"]
+    if not model_cex:
+        lib.tlc_must_pass(mc, "KAccessDefMC: no sensitive grant on high-privilege targets for users outside HP; monotonicity; known filter constructs")
+        arms = {t[1] for t in mc["tuples"] if t[0] == "ARM"}
+        if arms != ARMS:
+            lib.tool_error(f"vacuity guard: arms not exercised by the exhaustive run: {sorted(ARMS - arms)}")
+    else:
+        print("[C25] the exhaustive model run found a grant on a high-privilege target for a user outside HP; replaying on the real server")
     # (3) the role sets on a real default server
     obs = f"{wd}/obs.ndjson"
     if replay:
         lib.kverif("access", ["c25", "--out", obs, "--replay", replay])
     else:
-        sub, hp = (2, 6) if tier == "quick" else (99, 40)
+        sub, hp = (2, 6) if tier == "quick" and not model_cex else (99, 40)
         lib.kverif("access", ["c25", "--out", obs, "--subsets", sub, "--hproles", hp, "--seed", lib.seed()], timeout=3000)
     tv = lib.trace_validate("KAccessDefTrace", obs, PID, timeout=3000)
     lines = lib.read_lines(obs)
@@ -77,6 +83,8 @@ def run(tier, replay):
         "results": by,
         "successes_by_hp_users": sum(1 for r in ops if r["res"] == "ok" and d["hp"] in r["id"]["mo"]),
         "model_arms_exercised": sorted(ARMS),
+        "model_counterexample": model_cex,
+        "model_counterexample_reproduced_on_real_server": bool(model_cex and tv["l1fail"]),
         "rule": "model: every (role subset, target) is a state; real server: every attempt is a validated trace line",
     }
     R.assumptions = ["the extracted configuration is that of the tree under test at the target domain level (regenerated each run)",
